@@ -249,6 +249,7 @@ func Array[V any](arguments ...any) col.ArrayLike[V] {
 	var notation = CDCN()
 	var size uint
 	var values []V
+	var hasValues bool
 	var sequence col.Sequential[V]
 	var source string
 
@@ -261,6 +262,7 @@ func Array[V any](arguments ...any) col.ArrayLike[V] {
 			size = actual
 		case []V:
 			values = actual
+			hasValues = true // An empty Go array is an argument too.
 		case string:
 			source = actual
 		default:
@@ -288,7 +290,7 @@ func Array[V any](arguments ...any) col.ArrayLike[V] {
 	switch {
 	case size > 0:
 		array = class.Make(size)
-	case len(values) > 0:
+	case hasValues:
 		array = class.MakeFromArray(values)
 	case sequence != nil:
 		array = class.MakeFromSequence(sequence)
